@@ -350,6 +350,7 @@ func c13(c *Ctx) {
 		"definition and method by method, matched by constructor id. Decides the structural statement of C13 for every definition; it does not " +
 		"call any method end-to-end."
 	r.NotDecided = []string{"'called end-to-end … returns the server's answer' (dynamic behaviour of MakeRequest, the decoder and the server)"}
+	c.errorsKept("R13.X", "the shipped wrappers (package telegram): the error of the request is the error of the wrapper", 300, inPkgs(load.TgPkg))
 	r.Rule("R13.I", "every schema definition's id equals the CRC-32 of its canonical line and is the CRC() constant of exactly one registered Go type", 1195)
 	r.Rule("R13.F", "parameters ↔ struct fields in order: TL→Go type map (boxed types resolved by constructor-id sets), flag bit, encoded_in_bitflags ⇔ true, FlagIndex() = position of flags:#", 1100)
 	r.Rule("R13.R", "registered set = schema set minus the documented exclusions; exclusion table agrees with tlparser.excludedDefinitions; enums registered as enums", 60)
